@@ -396,3 +396,18 @@ _add_family(globals(), _sl, 'schemaleak', lambda case, impl: _sl.oracle(case, im
 
 from harness import storeinit as _si                    # noqa: E402
 _add_family(globals(), _si, 'storeinit', _si.oracle, share=0.05)
+
+
+# the view handed to each of the three calls, also inside a worker
+from harness import parviews as _pv                     # noqa: E402
+_add_family(globals(), _pv, 'parviews', _pv.oracle, share=0.02)
+
+
+# children moved between collections by an update issued at their common ancestor
+from harness import movefar as _mf                      # noqa: E402
+_add_family(globals(), _mf, 'movefar', _mf.oracle, share=0.04)
+
+
+# an update condition over a collection whose members are deleted, moved away and added
+from harness import gonecond as _gc                     # noqa: E402
+_add_family(globals(), _gc, 'gonecond', _gc.oracle, share=0.03)
